@@ -409,6 +409,14 @@ def r_name_table_single_writer(r, prog):
     # the element is registered whenever its name is vacant, and otherwise unless the element found under the name takes precedence over
     # it by kind; a primitive type takes precedence over everything (only possible for an element of a file without a module declaration;
     # the parser looks the primitives up by name and unwraps, so they keep their entries), and no kind gives way to itself
+    # a module that is registered through add_named_element (instead of add_module's vacant-name rule) must still never take the place of
+    # another element: every other kind keeps its entry against a module
+    if 'Module' in kinds and pol is not None:
+        loses = sorted(k for k in kinds if k != 'Module' and not pol['keeps'](k, 'Module'))
+        if loses:
+            r.finding('module-can-replace-element', ane.span, 'modules are registered through add_named_element, where a module takes the entry of %s (%s): `module A::S::x` declared in a later file makes the field / operation / enumerator `A::S::x` impossible to retrieve by name, depending on the order of the files' % (', '.join(loses[:5]), pol['form']))
+        else:
+            r.ok('modules registered through add_named_element never take the place of another element')
     if pol is not None and all(pol['keeps']('Primitive', k) for k in kinds) and not any(pol['keeps'](k, k) and pol['keeps'](k2, k) and pol['keeps'](k, k2) for k in kinds for k2 in kinds if k != k2):
         r.ok('the name registered is parser_scoped_identifier() and the index is that of the element pushed next; an entry is kept only when its kind takes precedence (%s); a primitive type always keeps its entry' % pol['form'])
     else:
@@ -418,7 +426,7 @@ def r_name_table_single_writer(r, prog):
         r.ok('lookup_table is private and add_named_element is not public')
     else:
         r.finding('name-table-exposed', '-', 'lookup_table / add_named_element are reachable from outside the crate')
-    r.floor(7)
+    r.floor(10)
 
 
 def r_kind_checks(r, prog):
